@@ -109,19 +109,37 @@ def gen_pm2(r, target, profile):
     epoch_phase = {0: 0}           # off epoch -> phase at which its table is sent
     code_epoch_phase = {0: 0}
     points = [(0, True)]           # (phase index, new code table?) in order
-    bytes_only = profile == "bytes"
-    small = profile == "small"     # < 10 codes: bytes + copy code 0 only
-    ten = profile == "ten"         # symbols 0..9 only: exactly 10 codes, offset tree needed for the 3-byte copy
-    single28 = profile == "single28"
-    single_byte = profile == "singlebyte"
+    SUBS = ["mixed", "single28", "singlebyte", "small", "singlecopy", "ten", "bytes"]
+    switching = profile == "switch"      # a different sub-profile in every code-table period (single <-> multi-code tables)
+    cur = r.choice(SUBS) if switching else profile
+    sc_code = r.randrange(1, 20)         # the one copy class of a "singlecopy" period
+    SC_LEN = {15: (17, 24), 16: (25, 32), 17: (33, 64), 18: (65, 128), 19: (129, 256)}
     skew = {"bytes": lambda: min(255, int(r.expovariate(1 / 20.0))),
             }.get(profile, lambda: r.choice([0, 1, 2, r.randrange(8), r.randrange(32), r.randrange(256)]))
+    last_epoch = 0
     while len(sim.out) < target:
+        if switching and code_epoch != last_epoch:
+            last_epoch = code_epoch
+            cur = r.choice(SUBS)
+            sc_code = r.randrange(1, 20)
+        bytes_only = cur == "bytes"
+        small = cur == "small"         # < 10 codes: bytes + copy code 0 only
+        ten = cur == "ten"             # symbols 0..9 only: exactly 10 codes, offset tree needed for the 3-byte copy
+        single28 = cur == "single28"
+        single_byte = cur == "singlebyte"
+        single_copy = cur == "singlecopy"
         ph_now = phase - 1          # tables in force were sent at point phase-1 (or earlier for code)
         maxoff_sym = num_offsets(min(ph_now, 3)) - 1
         k = r.random()
         gap = next_at - len(sim.out)
-        if not (single28 or single_byte or small or ten) and 2 <= gap <= 256 and r.random() < 0.5:
+        if single_copy:
+            # every command of this period is a copy of ONE length class: a single-code table that needs an offset table
+            lo, hi = SC_LEN.get(sc_code, (sc_code + 2, sc_code + 2))
+            n = r.randrange(lo, hi + 1)
+            d = r.randrange(1 << (maxoff_sym + 6))
+            cmds.append("C%d.%d" % (d, n)); sim.copy(d, n)
+            recs.append((8 + sc_code, pm2_off_sym(d), code_epoch, off_epoch))
+        elif not (single28 or single_byte or small or ten) and 2 <= gap <= 256 and r.random() < 0.5:
             # land exactly on the rebuild point, or cross it by a byte or two, with a copy
             n = min(256, max(2, gap + r.choice([0, 0, 0, 1, 2, 17])))
             d = r.randrange(64) if n == 2 else r.randrange(1 << (maxoff_sym + 6))
@@ -177,8 +195,10 @@ def gen_pm2(r, target, profile):
             recs.append((8 + c, osym, code_epoch, off_epoch))
         if len(sim.out) >= next_at:
             newcode = phase >= 3 and (r.random() < 0.6)
-            if single28 or single_byte:
+            if (single28 or single_byte) and not switching:
                 newcode = phase >= 3 and r.random() < 0.3
+            if switching:
+                newcode = phase >= 3 and r.random() < 0.85
             points.append((phase, newcode))
             if newcode:
                 code_epoch += 1
@@ -201,12 +221,14 @@ def gen_pm2(r, target, profile):
     for ce in range(code_epoch + 1):
         used = code_used.get(ce, {})
         style = r.choice(["huff", "huff", "extra", "random"])
-        if len(used) <= 1 and (r.random() < 0.7 or single28 or single_byte or not used):
+        if len(used) <= 1 and (r.random() < 0.7 or profile in ("single28", "singlebyte", "singlecopy", "switch") or not used):
             sym = next(iter(used)) if used else r.randrange(8)
             code_txt[ce] = "s%d" % (sym + 1)
             need[ce] = (sym + 1 >= 10) and (sym + 1 != 29)
             tags.add("code=single")
             continue
+        small = bool(used) and max(used) <= 8 and profile in ("small", "switch") and (profile == "small" or r.random() < 0.5)
+        ten = bool(used) and max(used) <= 9 and profile in ("ten", "switch") and not small and (profile == "ten" or r.random() < 0.5)
         universe = 9 if small else 10 if ten else 29
         lens = complete_table(r, used, universe, r.choice([8, 10, 16]), style)
         hi = max(lens) + 1
